@@ -21,6 +21,11 @@ namespace Clipper2Lib { namespace verif {
   // call with n = -1:  v = { x, y, flags (OpenStart 1, OpenEnd 2, LocalMax 4, LocalMin 8), path type, is_open }
   typedef void (*VertexFn)(int n, const long long* v);
   inline thread_local VertexFn vertex_fn = nullptr;
+  // one call per ClipperOffset::OffsetPoint: v = { prev.x, prev.y, cur.x, cur.y, 1000 * norms[k], 1000 * norms[j]
+  // (x, y each, rounded), 1000 * group_delta, join type, end type (as currently in effect), 1000 * miter limit },
+  // pts = the points appended to the raw offset path by this call (x0, y0, x1, y1, ...)
+  typedef void (*OffsetFn)(const long long* v, const long long* pts, int npts);
+  inline thread_local OffsetFn offset_fn = nullptr;
 }}
 #define CLIPPER2_VERIF_YIELD(site) ::Clipper2Lib::verif::Yield(site)
 #else
